@@ -51,7 +51,10 @@ fn check_no_zero_sized_cycle_inner(
 		if let RegularType::Record(_) = &schema.nodes[field.type_.idx].type_ {
 			if visited_nodes[field.type_.idx] {
 				return Err(UnconditionalCycle {});
-			} else {
+			} else if !checked_nodes[field.type_.idx] {
+				// (If it was already checked as part of another record, there's no need to go
+				// through it again, and going through it for every path that leads to it may
+				// take exponential time)
 				check_no_zero_sized_cycle_inner(
 					schema,
 					field.type_.idx,
